@@ -113,16 +113,33 @@ def judgeFilters : Judge := liftJudge fun input obs => do
 
 /-! ### mux -/
 
-def parsePath (j : Json) : Mux.PathEntry :=
-  { path := optStr j "path", pathPrefix := optStr j "pathPrefix", methods := strListOpt j "methods",
-    rewriteTarget := optStr j "rewriteTarget", backend := optStr j "backend" }
+/-- Parse state: the filter table built so far (ids are positions). -/
+def parseIPF (tbl : List IPSpec) (j : Json) : List IPSpec × Option Nat :=
+  match j.getObjVal? "ipFilter" with
+  | .ok (.obj o) =>
+    let f := Json.obj o
+    (tbl ++ [{ blockByDefault := optBool f "blockByDefault", allowIPs := strListOpt f "allowIPs",
+               blockIPs := strListOpt f "blockIPs" }], some tbl.length)
+  | _ => (tbl, none)
 
-def parseRule (j : Json) : Mux.Rule :=
-  { host := optStr j "host",
-    paths := match getArr j "paths" with | .ok a => a.toList.map parsePath | .error _ => [] }
+def parsePath (tbl : List IPSpec) (j : Json) : List IPSpec × Mux.PathEntry :=
+  let (tbl, f) := parseIPF tbl j
+  (tbl, { path := optStr j "path", pathPrefix := optStr j "pathPrefix", methods := strListOpt j "methods",
+          rewriteTarget := optStr j "rewriteTarget", backend := optStr j "backend", ipFilter := f })
+
+def parseRule (tbl : List IPSpec) (j : Json) : List IPSpec × Mux.Rule :=
+  let (tbl, f) := parseIPF tbl j
+  let ps := match getArr j "paths" with | .ok a => a.toList | .error _ => []
+  let (tbl, paths) := ps.foldl (fun (acc : List IPSpec × List Mux.PathEntry) p =>
+    let (t, e) := parsePath acc.1 p; (t, acc.2 ++ [e])) (tbl, [])
+  (tbl, { host := optStr j "host", ipFilter := f, paths := paths })
 
 def parseGen (j : Json) : HGen :=
-  { rules := { rules := match getArr j "rules" with | .ok a => a.toList.map parseRule | .error _ => [] },
+  let (tbl, f) := parseIPF [] j
+  let rs := match getArr j "rules" with | .ok a => a.toList | .error _ => []
+  let (tbl, rules) := rs.foldl (fun (acc : List IPSpec × List Mux.Rule) r =>
+    let (t, e) := parseRule acc.1 r; (t, acc.2 ++ [e])) (tbl, [])
+  { rules := { cfg := { ipFilter := f, rules := rules }, filters := tbl },
     options := { xForwardedFor := optBool j "xForwardedFor" },
     mapper := { tag := optStr j "tag", backends := strListOpt j "backends" } }
 
@@ -137,6 +154,16 @@ def parseOutcome (j : Json) : Outcome :=
 def outcomeJson (o : Outcome) : Json :=
   Json.mkObj [("status", Json.num (o.status : Int)), ("handler", o.handler), ("path", o.path), ("xff", o.xff)]
 
+/-- Request templates; the answers of the Go standard library (SplitHostPort, realip,
+strings.Contains) travel in `obs.oracle`. -/
+def parseReqs (input obs : Json) : Except String (List HReq) := do
+  let oracle := (← getArr obs "oracle").toList
+  pure <| ((← getArr input "reqs").toList.zip oracle).map fun (q, o) =>
+    let h := parseHReq q
+    ({ h with q := { h.q with hostNoPort := optStr o "hostNoPort", ip := optStr o "ip",
+                              host := if optStr q "host" == "" then "a.com" else optStr q "host" },
+              xffContains := optBool o "xffContains" } : HReq)
+
 def judgeMux : Judge := liftJudge fun input obs => do
   if let some m := obsPanic obs then
     return { agree := false, spec := false, sig := "panic:mux", note := m }
@@ -145,12 +172,7 @@ def judgeMux : Judge := liftJudge fun input obs => do
   let gA := parseGen ((input.getObjVal? "a").toOption.getD Json.null)
   let gB := parseGen ((input.getObjVal? "b").toOption.getD Json.null)
   -- answers of the Go standard library (SplitHostPort, realip, strings.Contains) travel in obs.oracle
-  let oracle := (← getArr obs "oracle").toList
-  let reqs := ((← getArr input "reqs").toList.zip oracle).map fun (q, o) =>
-    let h := parseHReq q
-    ({ h with q := { h.q with hostNoPort := optStr o "hostNoPort", ip := optStr o "ip",
-                              host := if optStr q "host" == "" then "a.com" else optStr q "host" },
-              xffContains := optBool o "xffContains" } : HReq)
+  let reqs ← parseReqs input obs
   let wantA := reqs.map (serve gA)
   let wantB := reqs.map (serve gB)
   let seqA := (← getArr obs "seqA").toList.map parseOutcome
@@ -187,6 +209,64 @@ def judgeMux : Judge := liftJudge fun input obs => do
            expected := Json.mkObj [("a", Json.arr (wantA.map outcomeJson).toArray), ("b", Json.arr (wantB.map outcomeJson).toArray)],
            tags := tags, nontrivial := differ > 0 && both > 0, sig := sig,
            note := match mixed with | some ((seen, _), _) => "seen " ++ (Json.arr (seen.map outcomeJson).toArray).compress | none => "" }
+
+/-! ### muxhist: sequential histories -/
+
+/-- Which single aspect (if exactly one) distinguishes two generations. -/
+def aspectOf (a b : HGen) : String :=
+  let dr := a.rules != b.rules
+  let dop := a.options != b.options
+  let dm := a.mapper.backends != b.mapper.backends
+  if !dr && !dop && !dm then "same"
+  else if dr && !dop && !dm then
+    (if a.rules.filters != b.rules.filters then "ipfilter-only" else "rules-only")
+  else if !dr && dop && !dm then "options-only"
+  else if !dr && !dop && dm then "mapper-only"
+  else "several"
+
+def judgeMuxHist : Judge := liftJudge fun input obs => do
+  if let some m := obsPanic obs then
+    return { agree := false, spec := false, sig := "panic:muxhist", note := m }
+  if optStr obs "err" != "" then
+    return { agree := true, spec := true, tags := ["skipped:" ++ optStr obs "err"], nontrivial := false }
+  let specsJ := (← getArr input "specs").toList
+  let specs := specsJ.map parseGen
+  let cacheSizes := specsJ.map (fun j => optInt j "cacheSize")
+  let reqs ← parseReqs input obs
+  let hist := (← getArr input "hist").toList
+  -- the harness skips out-of-range indices; so does the model
+  let ops : List (Sum HGen HReq × Option Nat) := hist.filterMap fun h =>
+    let i := (optInt h "i").toNat
+    if optInt h "i" < 0 then none
+    else match optStr h "op" with
+    | "reload" => (specs[i]?).map (fun g => (Sum.inl g, some i))
+    | "req" => (reqs[i]?).map (fun q => (Sum.inr q, none))
+    | _ => none
+  let want := histServe (emptyGen "") (ops.map (·.1))
+  let got := (← getArr obs "out").toList.map parseOutcome
+  let ok := got == want
+  -- classification: which single-aspect transitions happened, with which cache sizes, and was a
+  -- request key repeated across a reload (the situation in which stale state could show)
+  let reloadIdx := ops.filterMap (·.2)
+  let trans := (reloadIdx.zip (reloadIdx.drop 1)).map fun (a, b) =>
+    match specs[a]?, specs[b]? with
+    | some x, some y => (if a == b then "same-spec-again" else aspectOf x y)
+    | _, _ => "?"
+  let cachedTrans := (reloadIdx.zip (reloadIdx.drop 1)).any fun (a, b) =>
+    cacheSizes.getD a 0 > 0 && cacheSizes.getD a 0 == cacheSizes.getD b 0
+  let firstBad := ((got.zip want).zipIdx.find? (fun ((g, w), _) => g != w)).map (·.2)
+  let tags := (trans.eraseDups.map ("transition:" ++ ·)) ++
+    (cacheSizes.eraseDups.map (fun c => "cacheSize:" ++ toString c)) ++
+    (if want.any (·.status == 403) then ["403"] else []) ++
+    (if want.any (·.status == 503) then ["503"] else []) ++
+    (if want.any (·.status == 200) then ["200"] else []) ++
+    (if cachedTrans then ["reload-keeps-cacheSize>0"] else [])
+  let sig := if ok then "" else
+    if got.length != want.length then "muxhist:truncated"
+    else "muxhist:response-not-of-current-generation"
+  return { agree := ok, spec := ok, expected := Json.arr (want.map outcomeJson).toArray, tags := tags,
+           nontrivial := reloadIdx.length ≥ 2 && want.eraseDups.length ≥ 2, sig := sig,
+           note := match firstBad with | some i => "first differing response: #" ++ toString i | none => "" }
 
 /-! ### registry -/
 
@@ -271,7 +351,7 @@ def judgeRegistry : Judge := liftJudge fun input obs => do
            tags := tags, nontrivial := (want.any (·.1 == "updated")) && optInt obs "bgReads" > 0, sig := sig }
 
 def judges : List (String × Judge) :=
-  [("filters", judgeFilters), ("mux", judgeMux), ("registry", judgeRegistry)]
+  [("filters", judgeFilters), ("mux", judgeMux), ("muxhist", judgeMuxHist), ("registry", judgeRegistry)]
 
 end Driver.C11
 
